@@ -2,8 +2,8 @@
 From Coq Require Import Reals List String Bool.
 From V.base Require Import Num.
 From V.gen Require Import Distributions.
-From V.model Require Import DistHand Conditional.
-From V.proofs Require Import DistProofs DistFitProofs DistDocProofs CondProofs.
+From V.model Require Import DistHand Conditional ScipyDist.
+From V.proofs Require Import DistProofs DistFitProofs DistDocProofs CondProofs ScipyDistProofs.
 Import ListNotations.
 Local Open Scope R_scope.
 Local Open Scope string_scope.
@@ -166,6 +166,23 @@ Theorem C12_lognormal_likelihood_equivariant :
        lik_ln g0 (mu + ln c) sigma (map (Rmult c) xs) = lik_ln g0 mu sigma xs / c ^ Datatypes.length xs.
 Proof. exact (@lognormal_likelihood_equivariant). Qed.
 
+(* ScipyDistribution subclasses: unless every parameter is fixed the optimiser IS called, with the current parameters as start values *)
+Theorem C12_SD_fit_call :
+  forall (T : Type) (dflt : T) (fit : fitcall T -> list T) (fam : string) 
+         (names : list string) (stored : list T) (fixed : list (option T)),
+       Datatypes.length names = Datatypes.length fixed ->
+       In None fixed ->
+       sd_fit dflt fit fam names stored fixed =
+       fit
+         {|
+           f_family := fam;
+           f_pos := firstn (Datatypes.length names - 2) stored;
+           f_kw :=
+             [("loc", nth (Datatypes.length names - 2) stored dflt);
+              ("scale", nth (S (Datatypes.length names - 2)) stored dflt)] ++ sd_fkw names fixed
+         |}.
+Proof. exact (@sd_fit_runs_when_something_free). Qed.
+
 Example C12_nonvacuous : lik (fun z => z) 0 2 [4; 6] = (4 / 2 / 2) * ((6 / 2 / 2) * 1).
 Proof. unfold lik, dens. f_equal; [|f_equal]; f_equal; f_equal; apply Rminus_0_r. Qed.
 
@@ -183,3 +200,4 @@ Print Assumptions C12_VM_glue_roundtrip_partial.
 Print Assumptions C12_likelihood_equivariant.
 Print Assumptions C12_maximiser_equivariant.
 Print Assumptions C12_lognormal_likelihood_equivariant.
+Print Assumptions C12_SD_fit_call.
